@@ -424,64 +424,87 @@ func runC10(w *World, r *Report) {
 		if si > 0 {
 			hgInst = fmt.Sprintf("handoff-guard#%d", si+1)
 		}
-		// (d) the hand-off is enclosed in `remaining == 0`
-		enclosed := false
-		inspectAll(func(n ast.Node) bool {
-			is, ok := n.(*ast.IfStmt)
-			if !ok || !(is.Body.Pos() <= fullSend.Pos() && fullSend.End() <= is.Body.End()) {
-				return true
-			}
-			if be, ok := unparen(is.Cond).(*ast.BinaryExpr); ok && (be.Op == token.EQL || be.Op == token.LEQ) {
-				if cellObj(be.X) == remObj {
-					if v, isC := constIntOf(info, be.Y); isC && v == 0 {
-						enclosed = true
-					}
-				}
-			}
-			return true
-		})
-		if !enclosed {
-			// the inverted form: `if remaining != 0 { break / continue / return }` earlier in the block of the send
-			inspectAll(func(n ast.Node) bool {
-				var list []ast.Stmt
-				switch b := n.(type) {
-				case *ast.BlockStmt:
-					list = b.List
-				case *ast.CaseClause:
-					list = b.Body
-				default:
-					return true
-				}
-				idx := -1
-				for i, st := range list {
-					if st.Pos() <= fullSend.Pos() && fullSend.End() <= st.End() {
-						if _, isSend := st.(*ast.SendStmt); isSend {
-							idx = i
+		// a send inside a local closure that is only ever called happens where the closure is called: the guard
+		// must enclose every call
+		anchors := []ast.Node{fullSend}
+		for _, b := range bodies {
+			ast.Inspect(b, func(n ast.Node) bool {
+				if fl, ok := n.(*ast.FuncLit); ok && fl.Body.Pos() <= fullSend.Pos() && fullSend.End() <= fl.Body.End() {
+					if sites := closureCallSites(info, b, fl); len(sites) > 0 {
+						anchors = anchors[:0]
+						for _, s := range sites {
+							anchors = append(anchors, s)
 						}
 					}
-				}
-				for i := 0; i < idx; i++ {
-					is, ok := list[i].(*ast.IfStmt)
-					if !ok || is.Else != nil || len(is.Body.List) == 0 {
-						continue
-					}
-					be, ok := unparen(is.Cond).(*ast.BinaryExpr)
-					if !ok || cellObj(be.X) != remObj {
-						continue
-					}
-					v, isC := constIntOf(info, be.Y)
-					if !isC || v != 0 || !(be.Op == token.NEQ || be.Op == token.GTR) {
-						continue
-					}
-					switch is.Body.List[len(is.Body.List)-1].(type) {
-					case *ast.BranchStmt, *ast.ReturnStmt:
-						enclosed = true
-					}
+					return false
 				}
 				return true
 			})
 		}
-		if enclosed {
+		allEnclosed := true
+		for _, anchor := range anchors {
+			// (d) the hand-off is enclosed in `remaining == 0`
+			enclosed := false
+			inspectAll(func(n ast.Node) bool {
+				is, ok := n.(*ast.IfStmt)
+				if !ok || !(is.Body.Pos() <= anchor.Pos() && anchor.End() <= is.Body.End()) {
+					return true
+				}
+				if be, ok := unparen(is.Cond).(*ast.BinaryExpr); ok && (be.Op == token.EQL || be.Op == token.LEQ) {
+					if cellObj(be.X) == remObj {
+						if v, isC := constIntOf(info, be.Y); isC && v == 0 {
+							enclosed = true
+						}
+					}
+				}
+				return true
+			})
+			if !enclosed {
+				// the inverted form: `if remaining != 0 { break / continue / return }` earlier in the block of the send
+				inspectAll(func(n ast.Node) bool {
+					var list []ast.Stmt
+					switch b := n.(type) {
+					case *ast.BlockStmt:
+						list = b.List
+					case *ast.CaseClause:
+						list = b.Body
+					default:
+						return true
+					}
+					idx := -1
+					for i, st := range list {
+						if st.Pos() <= anchor.Pos() && anchor.End() <= st.End() {
+							if st == anchor {
+								idx = i
+							}
+						}
+					}
+					for i := 0; i < idx; i++ {
+						is, ok := list[i].(*ast.IfStmt)
+						if !ok || is.Else != nil || len(is.Body.List) == 0 {
+							continue
+						}
+						be, ok := unparen(is.Cond).(*ast.BinaryExpr)
+						if !ok || cellObj(be.X) != remObj {
+							continue
+						}
+						v, isC := constIntOf(info, be.Y)
+						if !isC || v != 0 || !(be.Op == token.NEQ || be.Op == token.GTR) {
+							continue
+						}
+						switch is.Body.List[len(is.Body.List)-1].(type) {
+						case *ast.BranchStmt, *ast.ReturnStmt:
+							enclosed = true
+						}
+					}
+					return true
+				})
+			}
+			if !enclosed {
+				allEnclosed = false
+			}
+		}
+		if enclosed := allEnclosed; enclosed {
 			r.OK("complete", in.Key, hgInst, w.Pos(fullSend.Pos()), "the send to the full pool is enclosed in the test 'remaining == 0'", true)
 		} else {
 			r.Fail(VViolation, "complete", in.Key, hgInst, w.Pos(fullSend.Pos()), "the buffer is handed to the parsers without the test that the remaining-bytes counter reached zero: incomplete or over-long frames are delivered")
@@ -526,6 +549,45 @@ func runC10(w *World, r *Report) {
 						return
 					}
 				}
+			}
+		}
+		// a call of a local closure (no arguments: it works on the variables it captures) runs its body here
+		if es, ok := n.(*ast.ExprStmt); ok && inlineDepth < 4 {
+			if c, ok := es.X.(*ast.CallExpr); ok && len(c.Args) == 0 {
+				if lit := localClosure(info, in.Decl.Body, c.Fun); lit != nil {
+					inlineDepth++
+					var walk func(list []ast.Stmt)
+					walk = func(list []ast.Stmt) {
+						for _, st := range list {
+							switch b := st.(type) {
+							case *ast.BlockStmt:
+								walk(b.List)
+							case *ast.IfStmt:
+								walk(b.Body.List)
+								if eb, ok := b.Else.(*ast.BlockStmt); ok {
+									walk(eb.List)
+								} else if ei, ok := b.Else.(*ast.IfStmt); ok {
+									walk([]ast.Stmt{ei})
+								}
+							case *ast.ForStmt:
+								walk(b.Body.List)
+							case *ast.RangeStmt:
+								walk(b.Body.List)
+							default:
+								classifyIn(st, emit)
+							}
+						}
+					}
+					walk(lit.Body.List)
+					inlineDepth--
+					return
+				}
+			}
+		}
+		// the statement that binds a local closure does nothing by itself
+		if as, ok := n.(*ast.AssignStmt); ok && len(as.Lhs) == 1 && len(as.Rhs) == 1 {
+			if fl, ok := unparen(as.Rhs[0]).(*ast.FuncLit); ok && localClosure(info, in.Decl.Body, as.Lhs[0]) == fl {
+				return
 			}
 		}
 		if s, ok := isSendTo(info, n, so.poolFull); ok {
@@ -916,14 +978,25 @@ func streamParseHandoff(w *World, r *Report, so *streamObjs) {
 			// helper's statement order (the buffer is the helper's parameter there)
 			if es, ok := n.(*ast.ExprStmt); ok && helperDepth < 2 {
 				if c, ok := es.X.(*ast.CallExpr); ok {
+					var hbody *ast.BlockStmt
+					var hparams *ast.FieldList
+					var hinfo *types.Info
 					if fn, ok := typeutil.Callee(info, c).(*types.Func); ok {
 						if hf := w.FuncOf(fn); hf != nil && hf != pf && hf.Recv != nil && hf.Recv == pf.Recv && hf.Decl.Body != nil {
+							hbody, hparams, hinfo = hf.Decl.Body, hf.Decl.Type.Params, hf.Pkg.TypesInfo
+						}
+					} else if lit := localClosure(info, pf.Decl.Body, c.Fun); lit != nil {
+						// a local closure that is handed the buffer: the same, with the literal's body
+						hbody, hparams, hinfo = lit.Body, lit.Type.Params, info
+					}
+					if hbody != nil {
+						{
 							var param types.Object
 							pi := 0
-							for _, fl := range hf.Decl.Type.Params.List {
+							for _, fl := range hparams.List {
 								for _, nm := range fl.Names {
 									if pi < len(c.Args) && identObj(info, c.Args[pi]) == bObj {
-										param = hf.Pkg.TypesInfo.Defs[nm]
+										param = hinfo.Defs[nm]
 									}
 									pi++
 								}
@@ -931,7 +1004,7 @@ func streamParseHandoff(w *World, r *Report, so *streamObjs) {
 							if param != nil {
 								saveB, saveViews := bObj, views
 								bObj, views = param, map[types.Object]bool{}
-								ast.Inspect(hf.Decl.Body, func(q ast.Node) bool {
+								ast.Inspect(hbody, func(q ast.Node) bool {
 									if as, ok := q.(*ast.AssignStmt); ok && len(as.Lhs) == len(as.Rhs) {
 										for i, l := range as.Lhs {
 											if o := identObj(info, l); o != nil && o != bObj && isByteSlice(o.Type()) && usesObj(info, as.Rhs[i], bObj) {
@@ -969,7 +1042,7 @@ func streamParseHandoff(w *World, r *Report, so *streamObjs) {
 										}
 									}
 								}
-								walk(hf.Decl.Body.List)
+								walk(hbody.List)
 								helperDepth--
 								bObj, views = saveB, saveViews
 								return
